@@ -32,6 +32,10 @@ CLAIMED = {
         technique="deterministic simulation: the simulator owns the model's random_state, NumPy's global RNG (pinned / skewed as injected fault) and the cache history of a TransformedModel; exact push-forward and conditional laws from an independent reference model, DKW and tail-coverage bounds at 1e-12",
         text="Seeded operation sequences on TransformedModels (transform round trips, Jacobian, push-forward pdf, sampling, Monte-Carlo conditional sample/cdf/quantile from bulk to extreme conditioning values, IFORM contours repeated under global-RNG skew, cache history around a re-fit), each judged against the harness's own exact change-of-variables reference with distribution-free bounds.",
         note="Reference law computed with the harness's own closed forms from the public parameter values; the sampler's documented design (domain (0,100), density threshold 1e-7) is respected by adding the designed-away mass to every tolerance."),
+    "C19": dict(engine="hist", level="exploration", design="DESIGN.md section 3 / C19",
+        technique="deterministic simulation: seeded interleavings of evaluate / contour / plot / save / slice / fit operations (with injected optimiser failures and global-RNG skews) over several live models in one process; bit-exact object-graph snapshots around every step and projection equivalence against each model's operations run alone",
+        text="Seeded interleavings over 2-4 live models built from fresh predefined-getter calls (same getter possibly twice) with snapshots of every model and every caller array around every step, each evaluation executed twice under the same pinned global-RNG state, fits checked for isolation and template integrity, and every slot's history re-run alone in a fresh universe (projection equivalence).",
+        note="The snapshot walks __dict__ graphs (floats by hex, arrays by digest); private attributes that appear after creation are treated as caches; unseeded operations may depend on the global RNG state only, which the simulator pins per step."),
 }
 
 NA = {
